@@ -163,7 +163,7 @@ CLAIMED = {
             "(C01's division), bn_is_prime_solov on composites, rejection of composites by the fixed-base tests (corpus: Carmichael numbers, strong pseudoprimes, prime squares, "
             "close-prime products), prime generation, bn_mxp_sim_few (n != 2) / _lot and bn_gcd_ext_mid (not presented). Two genuine defects are listed as known findings with "
             "exact-value matchers: C09-ext-mod-1 (Barrett / pseudo-Mersenne reduction non-canonical for negative operands), C09-ext-mxp-1 (bn_mxp_sim ignores the sign of the "
-            "exponents). Tie: ~12000 structured lines per run (quick), 250000 (thorough): every variant by name, boundary operands, every model branch tagged.",
+            "exponents). Tie: ~12000 structured lines per run (quick), ~212000 (thorough): every variant by name, boundary operands, every model branch tagged.",
             "Trusted: Lean kernel; hand-written value-level models tied by correspondence (the digit layer below bn_add / bn_mul / bn_div / shifts is C01's); Montgomery "
             "form inside the exponentiation models is taken by value; primality ground truth = deterministic Miller-Rabin below 2^80, supplied factors, C18-certified / "
             "well-known primes above; 'rejects every composite' is corpus-only; bn_is_prime_basic is a trial-division filter (composites may pass by design); even moduli "
